@@ -484,11 +484,12 @@ func realNative(g gval, o mopts) (t ntv, ok bool) {
 }
 
 // enumerate: exhaustive small spaces —
-//   every scalar type at every width option with every extreme of the universe,
-//   every bytes leaf-list of up to 3 members over {[], [1], [2,3]},
-//   every string leaf-list of up to 3 members over {"", "a", 0x1D, "b\x1dc"},
-//   every int/uint leaf-list of length 2 over the 64-bit extremes at width 8/32/64,
-//   every decimal with digits in a signed window around 0 and ±10^p at every legal precision window.
+//
+//	every scalar type at every width option with every extreme of the universe,
+//	every bytes leaf-list of up to 3 members over {[], [1], [2,3]},
+//	every string leaf-list of up to 3 members over {"", "a", 0x1D, "b\x1dc"},
+//	every int/uint leaf-list of length 2 over the 64-bit extremes at width 8/32/64,
+//	every decimal with digits in a signed window around 0 and ±10^p at every legal precision window.
 func enumerate(tier string) []fw.Case {
 	var out []fw.Case
 	add := func(g gval, o mopts, tag string) {
